@@ -47,8 +47,9 @@ Defs == [method : Methods, class : Classes, auth : Auths, name : NameKinds, path
 
 MechServer(d) == [method |-> d.method, path |-> d.path, name |-> d.name, produces |-> MechProduces(d.class),
                   auth |-> d.auth, deprecated |-> FALSE]
-MechClient(d) == [method |-> d.method, deprecated |-> d.deprecated]
+(* the `Endpoint` request extension (clients.rs::setup_endpoint_extension): what a raw client reports in metrics and logs *)
+MechClient(d) == [method |-> d.method, deprecated |-> d.deprecated, ext |-> [name |-> d.name, path |-> d.path]]
 PropServer(d) == [method |-> d.method, path |-> d.path, name |-> d.name, produces |-> PropProduces(d.class),
                   auth |-> d.auth, deprecated |-> FALSE]
-PropClient(d) == [method |-> d.method, deprecated |-> d.deprecated]
+PropClient(d) == [method |-> d.method, deprecated |-> d.deprecated, ext |-> [name |-> d.name, path |-> d.path]]
 =============================================================================
